@@ -374,6 +374,8 @@ class _World:
             committed = False
         if st["end"] == "rollback":
             self.res.faults.inc("writer_rollback")
+        # the writer goes on using the objects it handed to the transaction
+        self.res.faults.inc("client_scribbles_on_passed_in_objects", b.scribble_on_handed_in())
         if committed:
             if work.snapshot() != self.model.snapshot() and not real_changed:
                 raise Violation("C11:op-outcome", "content changed but changed() is False")
